@@ -1167,12 +1167,15 @@ class Interp:
         pos = 0
         adv_axes = []       # axes produced by advanced (array) indices
         n_explicit = sum(1 for p in parts if not (isinstance(p, ast.Constant) and p.value is Ellipsis) and not (isinstance(p, ast.Constant) and p.value is None))
+        def _is_newaxis(q):
+            return (isinstance(q, ast.Constant) and q.value is None) or (isinstance(q, ast.Attribute) and q.attr == "newaxis")
+        n_explicit = sum(1 for p in parts if not (isinstance(p, ast.Constant) and p.value is Ellipsis) and not _is_newaxis(p))
         for p in parts:
-            if isinstance(p, ast.Constant) and p.value is None:
+            if _is_newaxis(p):
                 out.append(ONE)
                 continue
             if isinstance(p, ast.Constant) and p.value is Ellipsis:
-                skip = len(axes) - pos - (n_explicit - sum(1 for q in parts[:parts.index(p)] if not (isinstance(q, ast.Constant) and q.value is None)))
+                skip = len(axes) - pos - (n_explicit - sum(1 for q in parts[:parts.index(p)] if not _is_newaxis(q)))
                 out.extend(axes[pos:pos + max(skip, 0)])
                 pos += max(skip, 0)
                 continue
